@@ -333,6 +333,10 @@ class Contract:
     def call_effects(self, it, pre, post, a, res):
         pass
 
+    def witness(self, model, ctx):
+        """optional: concretise a counter-model into an input the replayer can run on the real code (JSON-able dict)"""
+        return None
+
     def result_term(self, it, pre, a):
         """optional: the result as an explicit function of the pre-state (pure functional contracts);
         used at call sites instead of a fresh symbol + ensures"""
@@ -580,6 +584,8 @@ def verify_function(repo, registry, models_factory, c, base_axioms, options=None
                 if eq is True:
                     continue
                 st.oblige(f'{c.name}#frame', eq, location=f'{fields.get("__class__", "obj")}#{oid}.{field}')
+        for ob_ in st.obligations:
+            ob_.ctx = dict(pre=pre, post=post, a=a, it=it, outcome=outcome, value=value)
         return outcome, value
 
     def guarded(st):
